@@ -284,6 +284,12 @@ def to_U(v):
         return u_of_str(z3.StringVal(v))
     if isinstance(v, int):
         return u_of_int(z3.IntVal(v))
+    if isinstance(v, GlobalV):
+        return z3.Const(f"global:{v.dotted}", U)
+    if isinstance(v, ClassV):
+        return z3.Const(f"class:{v.name}", U)
+    if isinstance(v, ExcV) and v.tag is not None:
+        return v.tag
     raise Unsupported(f"cannot inject {type(v).__name__} into U")
 
 
@@ -865,7 +871,8 @@ class Engine:
                     res.append(self._raise_out(s1, e1))
                     continue
                 if item.optional_vars is not None:
-                    outs = self.assign(item.optional_vars, v1 if v1 is not None else m, s1)
+                    # __enter__ is assumed to return the manager itself (files, locks)
+                    outs = self.assign(item.optional_vars, m, s1)
                 else:
                     outs = [(s1, None)]
                 for s2, e2 in outs:
@@ -1605,9 +1612,7 @@ class Engine:
         fname = ast.unparse(node.func)
         out = []
         # evaluate callee (for bound methods), args, kwargs left to right
-        kwnames = [k.arg for k in node.keywords]
-        if any(k is None for k in kwnames):
-            raise Unsupported("**kwargs in call")
+        kwnames = [k.arg if k.arg is not None else "**" for k in node.keywords]
         if isinstance(node.func, ast.Attribute):
             # method call: evaluate the receiver; opaque receivers give a bound method
             fouts = []
@@ -1653,7 +1658,7 @@ class Engine:
             return [(st, ExcV(fv.name, tuple(args)), None)]
         # 4. default: opaque effect
         if self.c.default_effects:
-            recv = (fv.recv,) if isinstance(fv, BoundV) else ()
+            recv = (fv.recv,) if isinstance(fv, BoundV) else ((fv,) if is_z3(fv) else ())
             return self.effect(st, fname, tuple(recv) + tuple(args), kwargs, fname, may_raise=True)
         raise Unsupported(f"call to {fname} (line {node.lineno}) has no contract, builtin axiom or inline body")
 
@@ -1666,8 +1671,9 @@ class Engine:
             self.used_trusted.add(f"{fname}: pure (deterministic, no effect, does not raise)")
             sort = {"U": U, "Str": z3.StringSort(), "Int": z3.IntSort(), "Bool": z3.BoolSort()}[spec.get("returns", "U")]
             allv = [to_U(a) for a in list(recv) + list(args)] + [to_U(v) for _, v in sorted(kwargs.items())]
-            f = z3.Function(f"fn.{fname}", *([U] * len(allv)), sort)
-            return [(st, f(*allv) if allv else z3.Const(f"fn.{fname}", sort), None)]
+            nm = spec.get("name", fname)
+            f = z3.Function(f"fn.{nm}", *([U] * len(allv)), sort)
+            return [(st, f(*allv) if allv else z3.Const(f"fn.{nm}", sort), None)]
         if kind == "ctor":
             o = self.fresh(spec.get("cls", fname), U)
             names = spec.get("fields", [])
